@@ -80,18 +80,29 @@ Definition fn_j (p : program) (oc : occ * chain) : list N := union [o_id (fst oc
 (* _add_names_in_same_context: every definition of x in the context that holds the name *)
 Definition frame_binds (x : N) (c : chain) : list N :=
   match c with f :: _ => map o_id (filter (is Bind x) (f_occs f)) | [] => [] end.
-Definition ctx_binds (p : program) (x n : N) : list N :=
-  match find_occ n (occs_of p) with Some (_, c) => frame_binds x c | None => [] end.
-(* _find_defining_names: _find_names + every `global x` of the module with the definitions of x
-   next to it + same-context definitions of every non-parameter name found so far *)
-Definition defining_j (p : program) (params : list N) (oc : occ * chain) : list N :=
+(* the context find_references works in for a name (Script -> create_context): a name in the LAST
+   child of a comprehension's `for` clause gets the context around the comprehension - that is the
+   iterable when no `if`/`for` follows, else the following clause (list `up`: printed inside the
+   comprehension frame, context = the frame around it) - and an iterable that is followed by a
+   clause gets the comprehension's own context, which defines none of our identifiers (list `down`) *)
+Definition ctx_binds (p : program) (up down : list N) (x n : N) : list N :=
+  if memN n down then [] else
+  match find_occ n (occs_of p) with
+  | Some (_, c) => frame_binds x (if memN n up then tl c else c)
+  | None => []
+  end.
+Definition module_binds (p : program) (x : N) : list N := map o_id (filter (is Bind x) (direct p)).
+(* _find_defining_names: _find_names + every `global x` of the module (a name whose context is the
+   module: its same-context definitions are the module's) with the definitions of x in the function
+   that declares it + same-context definitions of every non-parameter name found so far *)
+Definition defining_j (p : program) (params up down : list N) (oc : occ * chain) : list N :=
   let x := o_name (fst oc) in
   let f0 := fn_j p oc in
-  let gl := flat_map (fun d => if is DeclG x (fst d) then o_id (fst d) :: frame_binds x (snd d) else []) (occs_of p) in
+  let gl := flat_map (fun d => if is DeclG x (fst d) then o_id (fst d) :: frame_binds x (snd d) ++ module_binds p x else []) (occs_of p) in
   let f1 := union gl f0 in
-  fold_left (fun acc n => if memN n params then acc else union (ctx_binds p x n) acc) f1 f1.
+  fold_left (fun acc n => if memN n params then acc else union (ctx_binds p up down x n) acc) f1 f1.
 (* the scan over all same-spelled tokens in textual order `ord`, merged by merge_loop *)
-Definition refs_j (p : program) (params ord : list N) (id : N) : list N :=
+Definition refs_j (p : program) (params ord up down : list N) (id : N) : list N :=
   match find_occ id (occs_of p) with
   | None => []
   | Some oc =>
@@ -99,17 +110,17 @@ Definition refs_j (p : program) (params ord : list N) (id : N) : list N :=
       let cands := flat_map (fun i => match find_occ i (occs_of p) with
                                       | Some t => if N.eqb (o_name (fst t)) x then [fn_j p t] else []
                                       | None => [] end) ord in
-      find_refs (defining_j p params oc) cands
+      find_refs (defining_j p params up down oc) cands
   end.
 
-(* program, parameter ids, ids in textual order, occurrence id, identifier, observed reference ids (sorted) ->
+(* program, parameter ids, ids in textual order, context annotations, occurrence id, identifier, observed reference ids (sorted) ->
    [identifier inside the C03 fragment; the variable has a binding; observed = specification;
     late-bound use of the identifier; rebound parameter; observed = transcription of find_references] *)
-Definition chk_refs (c : program * list N * list N * N * N * list N) : list N :=
-  let '(p, params, ord, i, x, obs) := c in
+Definition chk_refs (c : program * list N * list N * list N * list N * N * N * list N) : list N :=
+  let '(p, params, ord, up, down, i, x, obs) := c in
   let spec := refs_ids p i in
   [b2n (name_in_fragment p x); b2n (has_bind p spec); b2n (nl_eqb (sortN spec) obs);
-   b2n (late_bound p x); b2n (param_rebound p x params); b2n (nl_eqb (sortN (refs_j p params ord i)) obs)].
+   b2n (late_bound p x); b2n (param_rebound p x params); b2n (nl_eqb (sortN (refs_j p params ord up down i)) obs)].
 Definition mkleaf (pv : str * str * bool) : leaf :=
   let '(p, v, s) := pv in {| l_prefix := p; l_value := v; l_sel := s |}.
 (* leaves (prefix, value, selected), new name, observed new text, old name *)
@@ -177,6 +188,7 @@ class Printer2(c03.Printer):
 
     def rebind(self, form, x, y, scope, indent):
         use, bind, sub = (lambda n, s: self.occ(n, 'use', s)), (lambda n, s, h: self.occ(n, 'bind', s, h)), self.new_scope
+        up, down = self.__dict__.setdefault('up', []), self.__dict__.setdefault('down', [])
         if form == 'plain':                      # x = x
             u = use(x, scope)
             b = bind(x, scope, 'assign')
@@ -200,6 +212,8 @@ class Printer2(c03.Printer):
             u = use(x, inner)
             uv = use('v', inner)
             b = bind(x, scope, 'assign')
+            up.append(u.oid)
+            down.append(uy.oid)
             parts = [(x, b), ' = [', ('v', uv), ' for ', ('v', bv), ' in ', (y, uy), ' if ', (x, u), ']']
         elif form == 'iterif':                   # x = [v for v in x if x]
             u1 = use(x, scope)
@@ -208,6 +222,8 @@ class Printer2(c03.Printer):
             u2 = use(x, inner)
             uv = use('v', inner)
             b = bind(x, scope, 'assign')
+            up.append(u2.oid)
+            down.append(u1.oid)
             parts = [(x, b), ' = [', ('v', uv), ' for ', ('v', bv), ' in ', (x, u1), ' if ', (x, u2), ']']
         elif form == 'dict':                     # x = {1: x for v in x}
             u1 = use(x, scope)
@@ -231,6 +247,8 @@ class Printer2(c03.Printer):
             bw = bind('w', inner, 'compfor')
             uv = use('v', inner)
             b = bind(x, scope, 'assign')
+            up.append(u.oid)
+            down.append(uy.oid)
             parts = [(x, b), ' = [', ('v', uv), ' for ', ('v', bv), ' in ', (y, uy), ' for ', ('w', bw), ' in ', (x, u), ']']
         elif form == 'nested':                   # x = [[v for v in x] for w in y]
             uy = use(y, scope)
@@ -371,6 +389,7 @@ def _task(item):
     out = dict(src=src, gprog=gprog, occs=[], names={}, fam=fam,
                params=[o.oid for o in p.occs if o.how == 'param'],
                order=[o.oid for o in sorted(p.occs, key=lambda o: (o.line, o.col))],
+               up=list(getattr(p, 'up', [])), down=list(getattr(p, 'down', [])),
                aborted=bool(trace and isinstance(trace[-1], tuple) and trace[-1][0] == 'EXC'))
     script = jedi.Script(src)
     cache = {}
@@ -898,6 +917,8 @@ def run(ctx):
         defs.append('Definition %s : program := %s.' % (name, r['gprog']))
         defs.append('Definition %s_params : list N := %s.' % (name, g_list(r['params'], g_N, 'N')))
         defs.append('Definition %s_ord : list N := %s.' % (name, g_list(r['order'], g_N, 'N')))
+        defs.append('Definition %s_up : list N := %s.' % (name, g_list(r['up'], g_N, 'N')))
+        defs.append('Definition %s_down : list N := %s.' % (name, g_list(r['down'], g_N, 'N')))
         for rec in r['occs']:
             stats['occurrences'] += 1
             where = dict(source=r['src'], occurrence=rec['id'], name=rec['name'])
@@ -906,7 +927,7 @@ def run(ctx):
                               'get_references raised')
                 continue
             ctx.count('refs', (r['src'], rec['id']), nontrivial=len(rec['refs']) >= 2)
-            rcases.append('(%s, %s_params, %s_ord, %d%%N, %d%%N, %s)' % (name, name, name, rec['id'], IDS[rec['name']], g_list(rec['refs'], g_N, 'N')))
+            rcases.append('(%s, %s_params, %s_ord, %s_up, %s_down, %d%%N, %d%%N, %s)' % (name, name, name, name, name, rec['id'], IDS[rec['name']], g_list(rec['refs'], g_N, 'N')))
             rmeta.append(dict(refs=rec['refs'], prog=name, gprog=r['gprog'], params=r['params'], order=r['order'],
                               partition=rec.get('partition'), **where))
             if 'rename_exc' in rec:
@@ -929,6 +950,13 @@ def run(ctx):
     failset = {i for i, f in enumerate(flags) if not f[2]}
     unpredicted = {i for i, f in enumerate(flags) if not f[5]}
     byocc = {(m['prog'], m['occurrence']): i for i, m in enumerate(rmeta)}
+    # what the transcription predicts where it differs from the observation (for the reports)
+    ul = sorted(unpredicted)
+    pl, err = common.coq_eval_N_lists(IMPORTS, "(fun c => let '(p, params, ord, up, down, i, x, obs) := c in sortN (refs_j p params ord up down i))",
+                                      [rcases[i] for i in ul], shard=600, defs='\n'.join(defs), timeout=2400)
+    if err:
+        raise RuntimeError('coq evaluation failed (prediction): ' + err)
+    predicted = dict(zip(ul, pl))
 
     def reason(i, also=()):
         """the model-computed class of the identifier; a class is claimed only if the answer
@@ -950,15 +978,15 @@ def run(ctx):
             # satisfies the specification (or concerns a name bound nowhere)
             n_obl += 1
             if n_obl <= 6:
-                model = common.coq_show(IMPORTS, ['(refs_j (%s) %s %s %d%%N, refs_ids (%s) %d%%N)' % (
-                    m['gprog'], g_list(m['params'], g_N, 'N'), g_list(m['order'], g_N, 'N'), m['occurrence'], m['gprog'], m['occurrence'])], defs=DEFS)
                 ctx.violation('obligation', dict(what='correspondence refs_j (transcription of find_references over jedi_goto): model and implementation differ',
-                                                 input=dict(source=m['source'], occurrence=m['occurrence'], reported=m['refs']), model=model), nofail=True)
+                                                 input=dict(source=m['source'], occurrence=m['occurrence'], reported=m['refs'], program=m['gprog']),
+                                                 model=predicted[i]), nofail=True)
         if i in unbound:
             continue   # a name that is bound nowhere has no definition to collect references for
         if i in failset:
             ctx.deviation(dict(stream='refs', cls='refs-differ-from-python-variable', reason=reason(i)),
-                          dict(source=m['source'], occurrence=m['occurrence'], name=m['name'], reported=m['refs']),
+                          dict(source=m['source'], occurrence=m['occurrence'], name=m['name'], reported=m['refs'],
+                               transcription_predicts=predicted.get(i, m['refs'])),
                           'get_references from occurrence #%d reports %r, which is not the set of occurrences of that variable' % (m['occurrence'], m['refs']))
         if m['partition']:
             ctx.deviation(dict(stream='partition', cls='not-a-partition', reason=reason(i, [byocc.get((m['prog'], m['partition']['member']))])),
